@@ -120,6 +120,12 @@ class SrcIndex:
                         s.files[rel] = ''
                         continue
                     s.files[rel] = _strip_comments(raw)
+        # modules compiled out by `#[cfg(not(feature = "<default feature>"))] mod x;` are not part of the crate
+        for rel in list(s.files):
+            if rel.endswith('/mod.rs') or rel.endswith('lib.rs'):
+                for m in re.finditer(r'#\[cfg\(not\(feature\s*=\s*"[\w-]+"\)\)\]\s*(?:pub(?:\([^)]*\))?\s+)?mod\s+(\w+)\s*;', s.files[rel]):
+                    dead = os.path.join(os.path.dirname(rel), m.group(1) + '.rs')
+                    s.files.pop(dead, None)
         for rel, src in s.files.items():
             s._scan(rel, src)
         s._impl_cache = {}
@@ -194,6 +200,7 @@ class SrcIndex:
         if pre and pre[0] in ('crate', 'libhaystack'): pre = pre[1:]
         good = [c for c in cands if _suffix(c.module.split('::') if c.module else [], pre)]
         if len(good) == 1: return good[0]
+        if pre and not good and not from_file: return None     # qualified with a foreign module (`chrono::DateTime`)
         if from_file:
             here = mod_of_file(from_file)
             for c in (good or cands):
